@@ -29,10 +29,12 @@ _Bool nondet_bool(void);
 #define VP_IN_ARR(name, n) do { __CPROVER_havoc_object(name); } while (0)
 #endif
 #define VP_ASSERT(c, msg) __CPROVER_assert((c), msg)
-/* reachability guard: only present in the separate cover build (cbmc --cover cover) */
-#if defined(VP_COVER_BUILD) && !defined(VP_REPLAY)
-#define VP_COVER(c) __CPROVER_cover(c)
-#else
+/* reachability guard (vacuity check): a must-FAIL assertion.  The driver requires every VP-REACH marker to be
+ * reported FAILURE by CBMC (= the location is reachable with c true); a marker that "succeeds" is dead code or sits
+ * behind a contradictory assumption, and the unit is rejected. */
+#ifdef VP_REPLAY
 #define VP_COVER(c) ((void)0)
+#else
+#define VP_COVER(c) __CPROVER_assert(!(c), "VP-REACH " #c)
 #endif
 #endif
